@@ -471,6 +471,17 @@ pixman_filter_create_separable_convolution (int             *n_values,
     height = filter_width (reconstruct_y, sample_y, sy);
     subsample_y = (1 << subsample_bits_y);
 
+    /* The width and height are stored in the parameter block as 16.16
+     * fixed point numbers; a filter of 32768 or more taps cannot be
+     * described (pixman_int_to_fixed() would wrap around and the header
+     * would no longer match the tables). Refuse it instead.
+     */
+    if (width > 0x7fff || height > 0x7fff)
+    {
+	*n_values = 0;
+	return NULL;
+    }
+
     *n_values = 4 + width * subsample_x + height * subsample_y;
     
     params = malloc (*n_values * sizeof (pixman_fixed_t));
